@@ -486,6 +486,12 @@ fn gen_json(rng: &mut Rng, depth: u32) -> Value {
     }
 }
 
+/// Texts that a lenient number parser may take for a number (Rust's `str::parse::<f64>` accepts the first group).
+const NUMBER_SPELLINGS: [&str; 34] = [
+    "NaN", "-NaN", "+NaN", "nan", "-nan", "inf", "-inf", "+inf", "infinity", "-infinity", "Infinity", "-Infinity", "INF", "1e999", "-1e999", "1e-999", "-0", "-0.0", "0.0", "+1", "01", "1.0", "1e0",
+    "1.", ".5", " 1", "1 ", "0x10", "1_000", "1,5", "١", "true", "null", "",
+];
+
 /// Replace one node of a JSON value by something of another type.
 fn near_miss(rng: &mut Rng, j: &Value) -> Value {
     fn count(j: &Value) -> usize {
@@ -501,7 +507,9 @@ fn near_miss(rng: &mut Rng, j: &Value) -> Value {
             return match j {
                 Value::Null => Value::from(5),
                 Value::Bool(_) => Value::String("x".into()),
-                Value::Number(n) => match rng.below(7) {
+                Value::Number(n) => match rng.below(9) {
+                    // other spellings of a number as text: special floats, signs, padding, radix, separators
+                    7 | 8 => Value::String((*rng.pick(&NUMBER_SPELLINGS)).into()),
                     0 => Value::String("1".into()),
                     // numbers as decimal strings, incl. ones beyond what a JSON number can hold
                     4 => Value::String(n.to_string()),
@@ -562,6 +570,94 @@ fn near_miss(rng: &mut Rng, j: &Value) -> Value {
     let n = count(j);
     let mut k = rng.below(n as u64) as isize;
     rec(j, &mut k, rng)
+}
+
+/// Other spellings of an object key that a lenient reader could take for the same key
+/// (integers: leading zero, sign, negative zero, fraction, padding; any key: padding, letter case).
+fn key_spellings(k: &str) -> Vec<String> {
+    let mut v = vec![format!(" {}", k), format!("{} ", k), k.to_uppercase(), k.to_lowercase()];
+    if let Ok(n) = k.parse::<i128>() {
+        if n >= 0 {
+            v.push(format!("0{}", k));
+            v.push(format!("+{}", k));
+            v.push(format!("00{}", k));
+        } else {
+            v.push(format!("-0{}", &k[1..]));
+        }
+        if n == 0 {
+            v.push("-0".into());
+            v.push("+0".into());
+        }
+        v.push(format!("{}.0", k));
+        v.push(format!("{}e0", k));
+    }
+    v.retain(|x| x != k);
+    v.sort();
+    v.dedup();
+    v
+}
+
+/// Every way of ADDING one respelt copy of an existing key (same value) to one object of `j`, up to `max`.
+fn key_alias_variants(rng: &mut Rng, j: &Value, max: usize) -> Vec<Value> {
+    fn paths(j: &Value, here: &mut Vec<String>, out: &mut Vec<Vec<String>>) {
+        match j {
+            Value::Object(o) => {
+                if !o.is_empty() {
+                    out.push(here.clone());
+                }
+                for (k, v) in o {
+                    here.push(k.clone());
+                    paths(v, here, out);
+                    here.pop();
+                }
+            }
+            Value::Array(a) => {
+                for (i, v) in a.iter().enumerate() {
+                    here.push(i.to_string());
+                    paths(v, here, out);
+                    here.pop();
+                }
+            }
+            _ => {}
+        }
+    }
+    fn at<'a>(j: &'a mut Value, p: &[String]) -> Option<&'a mut Value> {
+        let mut cur = j;
+        for s in p {
+            cur = match cur {
+                Value::Object(o) => o.get_mut(s)?,
+                Value::Array(a) => a.get_mut(s.parse::<usize>().ok()?)?,
+                _ => return None,
+            };
+        }
+        Some(cur)
+    }
+    let mut ps = Vec::new();
+    paths(j, &mut Vec::new(), &mut ps);
+    let mut out = Vec::new();
+    for _ in 0..max {
+        if ps.is_empty() {
+            break;
+        }
+        let p = ps[rng.below(ps.len() as u64) as usize].clone();
+        let mut j2 = j.clone();
+        if let Some(Value::Object(o)) = at(&mut j2, &p) {
+            let keys: Vec<String> = o.keys().cloned().collect();
+            let k0 = keys[rng.below(keys.len() as u64) as usize].clone();
+            let sp = key_spellings(&k0);
+            if sp.is_empty() {
+                continue;
+            }
+            let k1 = sp[rng.below(sp.len() as u64) as usize].clone();
+            if o.contains_key(&k1) {
+                continue;
+            }
+            let v0 = o.get(&k0).cloned().unwrap();
+            o.insert(k1, v0);
+            out.push(j2);
+        }
+    }
+    out
 }
 
 /// Can a value of this shape decode to JSON null in postcard-dyn (so that `Option(it)` coalesces)?
@@ -803,6 +899,9 @@ pub fn run_c18(cfg: &Cfg) -> Report {
                     let nm = near_miss(&mut t.rng, &j);
                     c18_encode(t, &schema, &shape, "near_miss", &nm);
                 }
+                for ja in key_alias_variants(&mut t.rng, &j, 2) {
+                    c18_encode(t, &schema, &shape, "key_alias", &ja);
+                }
             }
             for _ in 0..3 {
                 let j = gen_json(&mut t.rng, 3);
@@ -811,6 +910,104 @@ pub fn run_c18(cfg: &Cfg) -> Report {
         }
     });
     rep.stats.merge(s);
+    // maps of every key kind: an object that holds one of its keys twice, under two spellings (integers: leading zero, sign,
+    // negative zero, fraction; any key: padding, letter case).  Whatever the encoder makes of it, the fixpoint clause must hold.
+    let s = parallel(cfg, 4, |t| {
+        let key_kinds = [Shape::U8, Shape::I8, Shape::U16, Shape::I16, Shape::U32, Shape::I32, Shape::U64, Shape::I64, Shape::U128, Shape::I128, Shape::Usize, Shape::Isize, Shape::Str, Shape::Char, Shape::Bool];
+        let mut ai = 0u64;
+        for kk in key_kinds.iter() {
+            for vk in 0..3 {
+                ai += 1;
+                if !t.mine(ai) || t.cfg.expired() {
+                    continue;
+                }
+                let inner = Shape::Map(Box::new(kk.clone()), Box::new(Shape::U8));
+                let shape = Shape::Map(Box::new(kk.clone()), Box::new([Shape::U8, Shape::Str, inner][vk].clone()));
+                let schema = shape_to_owned(&shape);
+                let rounds = t.cfg.scale(1, 6, 40);
+                for _ in 0..rounds {
+                    let key_text = |rng: &mut Rng| -> String {
+                        match kk {
+                            Shape::Str => gen_string(rng, 5),
+                            Shape::Char => "k".into(),
+                            Shape::Bool => if rng.chance(1, 2) { "true".into() } else { "false".into() },
+                            Shape::I8 | Shape::I16 | Shape::I32 | Shape::I64 | Shape::I128 | Shape::Isize => (*rng.pick(&[0i64, -1, 7, -7, 42, -100, 127, -128])).to_string(),
+                            _ => (*rng.pick(&[0u64, 1, 7, 9, 42, 100, 127, 255])).to_string(),
+                        }
+                    };
+                    let mut o = serde_json::Map::new();
+                    for _ in 0..t.rng.range(1, 4) {
+                        let k = key_text(&mut t.rng);
+                        let v = match vk {
+                            0 => Value::from(t.rng.below(256)),
+                            1 => Value::String(gen_string(&mut t.rng, 4)),
+                            _ => {
+                                let mut m = serde_json::Map::new();
+                                for _ in 0..t.rng.range(1, 3) {
+                                    m.insert(key_text(&mut t.rng), Value::from(t.rng.below(256)));
+                                }
+                                Value::Object(m)
+                            }
+                        };
+                        o.insert(k, v);
+                    }
+                    let j = Value::Object(o);
+                    t.st.count("key_alias_maps");
+                    c18_encode(t, &schema, &shape, "map_plain", &j);
+                    for ja in key_alias_variants(&mut t.rng, &j, 6) {
+                        c18_encode(t, &schema, &shape, "key_alias", &ja);
+                    }
+                }
+            }
+        }
+    });
+    rep.stats.merge(s);
+    rep.floor("json_key_alias", if cfg.tier == Tier::Tiny { 1 } else { 50 });
+    // every scalar kind (alone, inside Option, Seq and a struct field) x every spelling of a number as JSON text, and x numbers at the edges
+    let s = parallel(cfg, 5, |t| {
+        let leaves = [Shape::F32, Shape::F64, Shape::U8, Shape::I8, Shape::U16, Shape::I16, Shape::U32, Shape::I32, Shape::U64, Shape::I64, Shape::U128, Shape::I128, Shape::Usize, Shape::Isize, Shape::Bool, Shape::Char, Shape::Str];
+        let mut li = 0u64;
+        for leaf in leaves.iter() {
+            for wrap in 0..4 {
+                li += 1;
+                if !t.mine(li) || t.cfg.expired() || (t.cfg.tier == Tier::Tiny && wrap > 0) {
+                    continue;
+                }
+                let shape = match wrap {
+                    0 => leaf.clone(),
+                    1 => Shape::Option(Box::new(leaf.clone())),
+                    2 => Shape::Seq(Box::new(leaf.clone())),
+                    _ => Shape::Struct("Holder", vec![("first", Shape::U8), ("x", leaf.clone())]),
+                };
+                let schema = shape_to_owned(&shape);
+                let mut texts: Vec<Value> = NUMBER_SPELLINGS.iter().map(|x| Value::String((*x).into())).collect();
+                for x in [0.0f64, -0.0, 1.5, 3.4028234663852886e38, 3.4028235677973366e38, -3.4028235677973366e38, 1e39, f64::MAX, f64::MIN_POSITIVE, 5e-324, 1e-46, 16777217.0, 9007199254740993.0] {
+                    texts.push(serde_json::Number::from_f64(x).map(Value::Number).unwrap_or(Value::Null));
+                }
+                for x in [0u64, 255, 256, 65535, 65536, u32::MAX as u64, u32::MAX as u64 + 1, i64::MAX as u64, i64::MAX as u64 + 1, u64::MAX] {
+                    texts.push(Value::from(x));
+                }
+                for x in [-1i64, -128, -129, -32769, i32::MIN as i64 - 1, i64::MIN] {
+                    texts.push(Value::from(x));
+                }
+                for leafj in texts {
+                    let j = match wrap {
+                        0 | 1 => leafj,
+                        2 => Value::Array(vec![leafj.clone(), leafj]),
+                        _ => {
+                            let mut m = serde_json::Map::new();
+                            m.insert("first".into(), Value::from(1));
+                            m.insert("x".into(), leafj);
+                            Value::Object(m)
+                        }
+                    };
+                    c18_encode(t, &schema, &shape, "number_spelling", &j);
+                }
+            }
+        }
+    });
+    rep.stats.merge(s);
+    rep.floor("json_number_spelling", if cfg.tier == Tier::Tiny { 1 } else { 500 });
     // wide nodes: structs, tuples and enums with 63 .. 300 (and 5000) members, type-correct and near-miss JSON, valid and cut bytes
     let s = parallel(cfg, 3, |t| {
         let mut wi = 0u64;
@@ -880,7 +1077,7 @@ pub fn run_c18(cfg: &Cfg) -> Report {
     rep.stats.merge(s);
     rep.rule = "cases = (schema, bytes) and (schema, JSON): random schema trees over every node kind (char, pointer-sized and 128-bit integers, nested options, non-string-keyed maps, the schema-of-schema kind; \
                 field and variant names unique within one struct/enum) x {valid encoding, strict prefixes, byte substitutions, bit flips, varint re-paddings, hostile length prefixes, random bytes} decoded under catch_unwind \
-                with a counting allocator (bound 512*nodes*(len+1) bytes), and x {type-correct, near-miss (one node replaced), unrelated random} JSON encoded under catch_unwind, followed by the decode/re-encode fixpoint \
+                with a counting allocator (bound 512*nodes*(len+1) bytes), and x {type-correct, near-miss (one node replaced, incl. numbers spelt as text: special floats, signs, padding), key-aliased (one object key held twice under two spellings; maps of every key kind), number spellings x every scalar kind, unrelated random} JSON encoded under catch_unwind, followed by the decode/re-encode fixpoint \
                 check for everything the encoder accepted. distinct = (schema, input)."
         .into();
     rep.assumptions = vec![
